@@ -192,6 +192,7 @@ func (tl *T0x0200LocationItem) String() string {
 }
 
 func (a *AlarmSignDetails) parse(alarmSign uint32) {
+	*a = AlarmSignDetails{}
 	data := fmt.Sprintf("%.32b", alarmSign)
 	if data[31] == '1' {
 		a.EmergencyAlarm = true
@@ -329,6 +330,7 @@ func (a *AlarmSignDetails) String() string {
 }
 
 func (s *StatusSignDetails) parse(statusSign uint32) {
+	*s = StatusSignDetails{}
 	data := fmt.Sprintf("%.32b", statusSign)
 	if data[31] == '1' {
 		s.ACC = true
